@@ -98,6 +98,28 @@ def run(repo: Repo, rep: Report, tier: str) -> None:
     ok = len(axes) == 2 and all("math.sqrt(len(self.layout_plan.entity_placements)" in cg.text(w.test.comparators[0]) for w, _ in axes)
     rep.check(ok, "C18-R2", "the grid spans the whole estimated area in both axes", "; ".join(rtext(w.test, roles) for w in whiles), grid.loc())
 
+    # the covered rectangle is anchored at the origin: the user-extent accumulators start from 0
+    accs = []
+    for nm, ds in du.defs.items():
+        upd = [v for v, how, _ in ds if how.startswith("assign") and isinstance(v, ast.Call) and call_name(v) in ("min", "max") and any(isinstance(a, ast.Name) and a.id == nm for a in v.args)]
+        if upd:
+            seeds = [v for v, how, _ in ds if how.startswith("assign") and v not in upd]
+            accs.append((nm, call_name(upd[0]), seeds))
+    rep.floor("C18-R2", "bounding-box accumulators over user positions", len(accs), 4)
+    broles = {nm: ("LO" if kind == "min" else "HI") for nm, kind, _ in accs}
+    alldefs = [v for ds in du.defs.values() for v, how, _ in ds if how.startswith("assign")]
+    n_extent = sum(1 for v in alldefs if re.fullmatch(r"max\(\w+, HI - LO \+ 2 \* \w+\)", rtext(v, broles)))
+    n_start = sum(1 for v in alldefs if re.fullmatch(r"min\(0(\.0)?, LO\) - \w+", rtext(v, broles)))
+    if n_extent < 2 or n_start < 2:
+        raise AnalysisError("C18-R2: extent formulas of the pole grid (extent = max(estimate, HI - LO + 2*margin), start = min(0, LO) - margin) not recognised; the seed rule below is derived from them")
+    # with these formulas the far edge is start + extent >= HI + margin only if LO <= 0, and the origin area [0, estimate] stays inside only if HI >= 0
+    for nm, kind, seeds in accs:
+        vals = [float(v.value) if isinstance(v, ast.Constant) and isinstance(v.value, (int, float)) and not isinstance(v.value, bool) else None for v in seeds]
+        ok = bool(vals) and all(x is not None and (x <= 0.0 if kind == "min" else x >= 0.0) and abs(x) != float("inf") for x in vals)
+        role = f"{kind}-accumulator #{[a_ for a_, k, _ in accs if k == kind].index(nm) + 1}"
+        rep.check(ok, "C18-R2", f"user bounding box {role} starts on the origin side (start + extent reaches every user entity and the solver's area around the origin)",
+                  f"seed {vals}" if ok else f"seeded with {[norm(v) for v in seeds]}: extent = HI - LO + 2*margin measured from start = min(0, LO) - margin no longer reaches HI when every user entity lies on one side of the origin", grid.loc())
+
     # ---------------- R3 ---------------------------------------------------------------
     rep.rule("C18-R3", "PowerPlanner is constructed only under a truthy power_pole_type, which flows unchanged from the CLI option in both mains; "
              "every other creator of an electric pole is a circuit relay")
